@@ -20,16 +20,17 @@ uint32_t nondet_u32(void);
 uint32_t x__ZN4Poco3Net12StreamSocket12receiveBytesEPvii(struct S_class_2ePoco_3a_3aNet_3a_3aStreamSocket *sock, uint8_t *buf, uint32_t n, uint32_t flags)
 {
   vf_recv_calls++;
-  __CPROVER_assert((int32_t)n >= 1 && n <= VF_CHUNK_MAX, "socket model: request size within VF_CHUNK_MAX");
+  __CPROVER_assert((int32_t)n >= 1, "socket model: positive request size");
   if (vf_stream_pos >= vf_stream_len) return 0;              /* peer closed */
   uint32_t avail = vf_stream_len - vf_stream_pos;
   uint32_t lim = n < avail ? n : avail;
+  __CPROVER_assert(lim <= VF_CHUNK_MAX, "socket model: deliverable chunk within VF_CHUNK_MAX");
   uint32_t k = nondet_u32(); __CPROVER_assume(k >= 1 && k <= lim);
 #ifdef VF_SPLIT1
   if (!vf_fresh) k = lim;                                     /* second chunk of a request: everything that is left */
   vf_fresh = (k == n);
 #endif
-  for (uint32_t i = 0; i < VF_CHUNK_MAX && i < n; i++) if (i < k) buf[i] = vf_stream[vf_stream_pos + i];   /* (i < n folds the loop for constant 1-byte requests) */
+  for (uint32_t i = 0; i < VF_CHUNK_MAX && i < n; i++)   if (i < k) buf[i] = vf_stream[vf_stream_pos + i];   /* (i < n folds the loop for constant 1-byte requests) */
   if (vf_recv_calls <= VF_MAXCALLS) cx_chunk[vf_recv_calls - 1] = (uint8_t)k;
   vf_stream_pos += k; return k;
 }
